@@ -38,6 +38,7 @@ type gen struct {
 	r      *engine.PRNG
 	o      GenOpts
 	budget int
+	inFan  bool // inside a container that already got the Fanout size
 }
 
 // Gen produces a canonical value of type t (one that plenc's documented
@@ -264,9 +265,11 @@ func (g *gen) fill(v reflect.Value, depth int, top bool) {
 			return
 		}
 		n := g.n(4)
-		if g.o.Fanout > 0 && depth <= 1 {
+		if g.o.Fanout > 0 && depth <= 1 && !g.inFan {
 			n = g.o.Fanout
 			g.budget = 1 << 30
+			g.inFan = true
+			defer func() { g.inFan = false }()
 		}
 		if n == 0 {
 			return
@@ -295,9 +298,12 @@ func (g *gen) fill(v reflect.Value, depth int, top bool) {
 		if g.o.NoMulti && n > 1 {
 			n = 1
 		}
-		if g.o.Fanout > 0 && depth <= 1 {
+		fan := false
+		if g.o.Fanout > 0 && depth <= 1 && !g.inFan {
 			n = g.o.Fanout
 			g.budget = 1 << 30
+			g.inFan, fan = true, true
+			defer func() { g.inFan = false }()
 		}
 		if n == 0 && g.r.Intn(2) == 0 {
 			return // nil map
@@ -306,7 +312,7 @@ func (g *gen) fill(v reflect.Value, depth int, top bool) {
 		for i := 0; i < n; i++ {
 			k := reflect.New(t.Key()).Elem()
 			g.fill(k, depth+1, false)
-			if g.o.Fanout > 0 && depth <= 1 {
+			if fan {
 				uniqueKey(k, i)
 			}
 			e := reflect.New(t.Elem()).Elem()
